@@ -14,7 +14,7 @@ from . import contract as C
 from .engine import Engine, EngineError, Frame, ModuleInfo, OutOfSubset, PathEnd, PyExc
 from .values import VInt
 
-FACT_ORDER = ["le128_frame", "le128_bound"]
+FACT_ORDER = ["le128_frame", "le128_bound", "le128_shift_ext", "ofsval_frame", "ofsval_bound", "ofsval_prepend", "ofsval_shift_ext", "msb_run_end"]
 
 
 def run_lemma(vf, lem):
@@ -88,6 +88,12 @@ def _run_lemma_path(vf, eng, lem, res):
             args = [eng.eval(vf.parse_spec(a), frame) for a in argexprs]
             v = eng.call_contract(con, args, {}, None, frame, closure_frame=frame)
         frame.env[target] = v
+        for ci, (after, ex) in enumerate(lem.cuts):
+            if after == target:
+                eng.prove(f"lemma:{lem.name}:cut#{ci + 1}", eng.eval_goal(ex, frame), "lemma", None, detail=ex)
+    for ci, (after, ex) in enumerate(lem.cuts):
+        if after is None:
+            eng.prove(f"lemma:{lem.name}:cut#{ci + 1}", eng.eval_goal(ex, frame), "lemma", None, detail=ex)
     apply_hints(vf, eng, lem.uses, frame)
     pfx = "lemma:" + lem.name
     if lem.induction:
